@@ -54,12 +54,40 @@ func callSeqShapes(src string) []csFunc {
 			depth += braceDelta(lines[j])
 		}
 		body := lines[i+1 : j]
-		if items := csItems(body); len(items) > 0 {
+		items := csItems(body)
+		if len(items) == 0 && (m[2] == "tell_me_more" || m[2] == "do_tell_me_more") &&
+			!strings.Contains(strings.Join(body, " "), "do_tell_me_more") {
+			// a decoder without the metadata side-track: every tell_me_more is out of order, and the
+			// function says so without looking at call_sequence (its first `return`, with the `if` around it)
+			if it := firstReturn(body); it != "" {
+				items = []string{it}
+			}
+		}
+		if len(items) > 0 {
 			out = append(out, csFunc{Name: m[2], Shape: strings.Join(items, " | ")})
 		}
 		i = j - 1
 	}
 	return out
+}
+
+// firstReturn: the first `return …` line of a body; when the line before it opens an `if`, that header
+// and the closing brace are included.
+func firstReturn(body []string) string {
+	prev := ""
+	for _, l := range body {
+		if l == "" {
+			continue
+		}
+		if strings.HasPrefix(l, "return ") {
+			if strings.HasPrefix(prev, "if ") && strings.HasSuffix(prev, "{") {
+				return norm([]string{prev, l, "}"})
+			}
+			return norm([]string{l})
+		}
+		prev = l
+	}
+	return ""
 }
 
 // the position a restarted decoder expects differs per format (a field or a constant)
@@ -78,7 +106,8 @@ func csClass(codec, fn string) string {
 	case "gif", "png", "nie":
 		return codec
 	case "bmp":
-		if fn == "do_decode_image_config" {
+		// "*": bmp's function list has do_tell_me_more where the others have tell_me_more
+		if fn == "do_decode_image_config" || fn == "do_tell_me_more" || fn == "*" {
 			return "bmp"
 		}
 	}
